@@ -217,7 +217,7 @@ def bounded_standin(plan, prop, r, repo, tier):
     if res.get("undecided") or res.get("crash"):
         out["method"] = "none: the function is outside the interpreter's subset also in bounded mode"
         out["undecided"] = res.get("undecided") or "crash"
-        nat = native_enumeration(plan, r, repo, tier)
+        nat = native_enumeration(plan, r, repo, tier, prop)
         out["native"] = nat
         if nat and nat.get("violation"):
             out["violation"] = {"name": f"{r['job']}/bounded-native", "kind": "bounded", "status": "failed",
@@ -230,8 +230,30 @@ def bounded_standin(plan, prop, r, repo, tier):
     return out
 
 
-def native_enumeration(plan, r, repo, tier):
-    return None
+def native_enumeration(plan, r, repo, tier, prop=None):
+    """last resort for a function outside the interpreter's subset: the real function against CPython on every small
+    input (replay/differential.py; bounded, labelled so).  Output differences without a fault are reported under
+    C01/C02, differences on runs with an injected failure under C06; other properties get no verdict from it."""
+    impl = r.get("impl") or [None, None]
+    name = (impl[1] or "").split(".")[0]
+    harness = os.path.join(VERIF, "replay", "differential.py")
+    if not name or prop not in ("C01", "C02", "C06"):
+        return None
+    try:
+        p = subprocess.run(["/venv/bin/python", harness, name, tier], capture_output=True, text=True, timeout=1500,
+                           env={**os.environ, "PYTHONPATH": repo})
+        res = json.loads(p.stdout.strip().splitlines()[-1])
+    except Exception as e:
+        return {"error": f"native differential run failed: {e!r}"}
+    if not res.get("cases"):
+        return {"note": f"no native differential variants for {name}"}
+    faulted = lambda v: "source fails at None, callable fails at None" not in v     # noqa: E731
+    mine = [v for v in res["violations"] if (faulted(v) if prop == "C06" else not faulted(v))]
+    out = {"method": "native differential enumeration against CPython (label: bounded)", "cases": res["cases"], "bound": res["bound"]}
+    if mine:
+        out["violation"] = mine[0]
+        out["more"] = mine[1:4]
+    return out
 
 
 def make_replay(plan, prop, r, ob, repo, replay_dir):
